@@ -9,7 +9,7 @@ Import ListNotations.
 Open Scope Z_scope.
 
 (* HEADLINE (array level, all histories).  For every hash function (murmur3, fnv, a constant = all keys
-   collide, ...), every capacity > 0, element size, fixed-length flag and EVERY sequence of Add / Remove /
+   collide, ...), every capacity > 0, every number of buckets > 0 (any load factor), element size, fixed-length flag and EVERY sequence of Add / Remove /
    Exist / Len whose hash column is the hash of the key (`consistent hash`): the answers computed on the Go
    arrays -- bucket heads `ha`, `next` links, the free-node list, `length`, the byte-pool slots -- equal the
    answers of a bounded mathematical set: Add answers "full" exactly when the set holds cap elements and then
@@ -17,7 +17,7 @@ Open Scope Z_scope.
    refuses shorter keys; Exist is membership; Len is the cardinality.  Free-list reuse after removals,
    deletion at the head / in the middle / at the end of a collision chain are all covered. *)
 Theorem C20_refines_set : forall (hash : key -> Z) (c : cfg) (ops : list op),
-  0 < cap c -> Forall (consistent hash) ops ->
+  0 < cap c -> 0 < hsz c -> Forall (consistent hash) ops ->
   snd (run_ops c (init c) ops) = sp_run c [] ops.
 Proof. exact array_refines_set. Qed.
 Print Assumptions C20_refines_set.
@@ -26,7 +26,7 @@ Print Assumptions C20_refines_set.
    (representation invariant Abs: chains acyclic, pairwise disjoint, disjoint from the free list, chain keys =
    bucket list, |free list| = cap - length) ... *)
 Theorem C20_array_refines_buckets : forall c ops,
-  0 < cap c -> snd (run_ops c (init c) ops) = bl_run c bl_init ops.
+  0 < cap c -> 0 < hsz c -> snd (run_ops c (init c) ops) = bl_run c bl_init ops.
 Proof. exact array_refines_bl. Qed.
 Print Assumptions C20_array_refines_buckets.
 
@@ -74,8 +74,8 @@ Proof. exact prop_C20_of_model. Qed.
 Print Assumptions C20_prop_of_model.
 Example C20_wf_corpus_cases :
   wf_C20 (VL [VZ 2; VZ 2; VZ 1; VZ 3; VL [VL [VZ 1; VB [1;1]; VZ 1]; VL [VZ 1; VB [1]; VZ 1]; VL [VZ 4];
-              VL [VZ 3; VB [1]; VZ 1]; VL [VZ 2; VB [1;1]; VZ 1]; VL [VZ 1; VB [0]; VZ 0]; VL [VZ 3; VB [1;1]; VZ 1]; VL [VZ 4]]]) = true
-  /\ wf_C20 (VL [VZ 2; VZ 2; VZ 1; VZ (-1); VL [VL [VZ 1; VZ 0; VB [1;1]]; VL [VZ 2; VZ 0]; VL [VZ 1; VZ 2; VB [1;1]]; VL [VZ 3]]]) = true.
+              VL [VZ 3; VB [1]; VZ 1]; VL [VZ 2; VB [1;1]; VZ 1]; VL [VZ 1; VB [0]; VZ 0]; VL [VZ 3; VB [1;1]; VZ 1]; VL [VZ 4]]; VZ 10]) = true
+  /\ wf_C20 (VL [VZ 2; VZ 2; VZ 1; VZ (-1); VL [VL [VZ 1; VZ 0; VB [1;1]]; VL [VZ 2; VZ 0]; VL [VZ 1; VZ 2; VB [1;1]]; VL [VZ 3]]; VZ 0]) = true.
 Proof. exact wf_C20_example. Qed.
 
 (* The byte pools used directly (byte_pool.BytePool / FixedBytePool: Set, Get, MaxElemSize): for every
@@ -97,7 +97,7 @@ Example C20_history :
   /\ Forall (consistent (fun _ => 7)) ex_ops.
 Proof. exact ex_run. Qed.
 Example C20_fixed_short :
-  let c := {| cap := 2; ksz := 2; fixed := true |} in
+  let c := {| cap := 2; ksz := 2; fixed := true; nb := 10 |} in
   snd (run_ops c (init c) [OAdd [1;1] 1; OAdd [1] 1; OLen; OExist [1] 1; OExist [1;1] 1; ORemove [1] 1; OLen])
   = [0; 3; 1; 0; 1; 0; 1].
 Proof. exact ex_fixed_short. Qed.
